@@ -245,3 +245,7 @@ func (h *H) PickBytes(c bool, a, b []byte) []byte {
 
 // Log prints a diagnostic natively (ignored by the engine and by the replay comparison).
 func (h *H) Log(label string, v any) { fmt.Printf("VRT-LOG %s=%v\n", label, v) }
+
+// Region names a set of inputs (a predicate over the harness inputs) that a committed
+// known-findings entry refers to by id. No effect natively.
+func (h *H) Region(id string, c bool) {}
